@@ -70,9 +70,29 @@ def _k23_job(job):
         part.paths += 1
         if pr.inconclusive: part.inconc(pr.inconclusive); return
         s = z3.Solver(); s.add(*pr.pc)
-        t = time.time(); r = s.check(); part.solver_s += time.time() - t; part.queries += 1
-        if r != z3.sat: return
-        m = s.model(); part.nontrivial += 1
+        part.nontrivial += 1
+        def edge(i, j): return sym[(i, j)] if real == 'fb' else (sym[i] == j)
+        reach = [[edge(i, j) for j in range(K)] for i in range(K)]
+        for k_ in range(K):
+            reach = [[z3.Or(reach[i][j], z3.And(reach[i][k_], reach[k_][j])) for j in range(K)] for i in range(K)]
+        ref_cyc = z3.Or([reach[i][i] for i in range(K)])
+        if not pr.panic:
+            res0 = pr.result; code0 = None
+            if res0.disc == 1:
+                d0 = res0.f[0].items[0]; c0 = M.deref(d0.f[0]); code0 = c0.conc() if isinstance(c0, Str) else None
+            got0 = res0.disc == 1 and code0 is not None and ('RecursiveCycle' in code0 or code0 == 'P0010')
+            # prefer an input (consistent with this path) on which the verdict is wrong; inputs the code never compared are free
+            s.push(); s.add(ref_cyc != z3.BoolVal(got0))
+            t = time.time(); r = s.check(); part.solver_s += time.time() - t; part.queries += 1
+            if r != z3.sat:
+                s.pop(); t = time.time(); r = s.check(); part.solver_s += time.time() - t; part.queries += 1
+                if r != z3.sat: return
+                m = s.model()
+            else:
+                m = s.model(); s.pop()
+        else:
+            if s.check() != z3.sat: return
+            m = s.model()
         if real == 'fb': edges = sorted((i, j) for (i, j), e in sym.items() if z3.is_true(m.eval(e, True)))
         else: edges = [(i, m.eval(b, True).as_long()) for i, b in sym.items() if m.eval(b, True).as_long() < K]
         cyc = TC.reach_cyclic(K, edges)
